@@ -14,6 +14,7 @@ package clusterchk
 // the peer did not discard its cache), and handling it makes the process send nothing more.
 import (
 	"database/sql"
+	"encoding/json"
 	"fmt"
 	"net"
 	"net/http"
@@ -162,6 +163,24 @@ func TestC29Loop(t *testing.T) {
 
 	ids := []int{caches.DSNCache, caches.AuthCache, caches.UserCache, caches.TokenCache, caches.BlacklistCache, caches.SchemaCache}
 	rounds := vh.N(4, 40)
+
+	if raw := vh.ReplayCase(); raw != nil {
+		var rc struct {
+			Kind    string `json:"kind"`
+			Run     *int   `json:"run"`
+			CacheID *int   `json:"cache_id"`
+		}
+
+		if json.Unmarshal(raw, &rc) != nil || rc.Kind != "" || rc.Run != nil || rc.CacheID == nil {
+			r.Note("the replay case belongs to another part of C29")
+
+			return
+		}
+
+		ids = []int{*rc.CacheID}
+		rounds = 2
+		r.Distinct = 2
+	}
 
 	for round := 0; round < rounds; round++ {
 		for _, id := range ids {
